@@ -1,26 +1,53 @@
 #!/usr/bin/env python3
 """gen_kernels.py <repo> <cbuild-dir> <out.v>
 
-A small C-to-Gallina translator for the integer kernels of libsrtp (no loops, no pointers other than
-out-parameters and `struct->field` accesses through a parameter):
+A small C-to-Gallina translator for the integer kernels of libsrtp:
 
-    crypto/kernel/key.c     srtp_key_limit_update, srtp_key_limit_set
-    crypto/replay/rdbx.c    srtp_index_guess, srtp_rdbx_estimate_index
-    crypto/replay/rdb.c     srtp_rdb_increment
-    srtp/srtp.c             srtp_estimate_index
+    crypto/kernel/key.c       srtp_key_limit_update, srtp_key_limit_set
+    crypto/replay/rdbx.c      srtp_index_guess, srtp_index_advance, srtp_rdbx_estimate_index, srtp_rdbx_check,
+                              srtp_rdbx_add_index, srtp_rdbx_set_roc_seq, srtp_rdbx_get_roc, srtp_rdbx_get_packet_index
+    crypto/replay/rdb.c       srtp_rdb_increment, srtp_rdb_check, srtp_rdb_add_index
+    crypto/math/datatypes.c   v128_left_shift, bitvector_set_to_zero, bitvector_left_shift
+    srtp/srtp.c               srtp_estimate_index
 
 Source of truth: clang's JSON AST of the file in /repo's working tree (macros expanded, every implicit integer
-conversion explicit, every expression typed).  Each C function becomes one Gallina function
+conversion explicit, every expression typed; compiled with -U__SSE2__ -U__SSSE3__, i.e. the portable C paths).
+Each C function becomes one Gallina function
 
-    <name>_gen : <value parameters and initial contents of every object reachable through a pointer parameter> ->
-                 (return value, final contents of those objects)
+    <name>_gen : [fuel : nat ->] <value parameters> -> <initial contents of every object reachable through a pointer
+                 parameter> -> (return value, final contents of those objects)          [wrapped in option if `fuel`]
 
 in "let" style: an assignment rebinds the variable, an `if` duplicates the continuation, `return` ends it.
+
 Integer semantics: every arithmetic result and every integral cast is wrapped to the C type clang assigned to it
 (unsigned: mod 2^n; signed: two's complement reinterpretation, i.e. the -fwrapv reading of signed overflow,
-which none of these functions relies on).  Unsupported constructs raise, and the check then reports that the
-generated kernels could not be produced (the hand-written model and the differential correspondence remain)."""
-import json, os, subprocess, sys
+which none of these functions relies on).
+
+Objects.  A scalar object reached through a pointer parameter (`p->f`, `p->s.f`, `(&p->s)->f`, `*p`) is one Gallina
+variable of type Z named after its access path (p_f, p_s_f, p_v).  An array object (an array member `p->v32[i]`, or
+the array a pointer MEMBER points to, `p->word[i]`) is one Gallina variable of type Z -> Z: read = application,
+write = `upd`.  Pointer VALUES are never computed, compared or stored (Unsupported), so a pointer member always
+denotes the same array.  Members of a union: using two different members of the same union object in one function
+(directly or through a callee) raises Unsupported (no type punning).
+What the translation assumes and does not check (the equivalence theorems state these as hypotheses where they
+matter): objects named by different access paths do not overlap (no aliasing between pointer parameters); every
+array access is in bounds; variables are initialised before they are read (an uninitialised local is bound to 0);
+shift counts are smaller than the width of the shifted type.
+
+Calls.  A call of a function translated earlier in the same run passes the values of the objects the callee reaches
+through its pointer parameters and rebinds them from the callee's result.  A pointer argument must be `&lvalue`
+(`&x->field`, `&local`) or a pointer parameter / pointer member passed on.  A full expression may contain at most one
+call, not under && || ?:, and must not otherwise mention an object the callee writes.
+`memset(array, c, n)` on an array of 4-byte words is the header function memset_u32 (little-endian target checked).
+
+Loops.  `for`/`while` become the fuel-based combinator `iter` of the header over the tuple of variables assigned in
+the loop; running out of fuel yields None.  Functions with loops (or calling such) take a first parameter
+`fuel : nat`, shared by all their loops and callees, and return an option.  break/continue/return inside a loop,
+nested loops (also through a callee), calls in a loop condition, do-while, goto, switch are Unsupported.
+
+Unsupported constructs raise, and the tool then lists the function in <out.v>.failed (never a silent
+mistranslation)."""
+import json, os, subprocess, sys, tempfile
 
 TYPES = {  # desugared C type -> (bits, signed)
     "unsigned long": (64, False), "long": (64, True), "unsigned long long": (64, False), "long long": (64, True),
@@ -31,15 +58,17 @@ TYPES = {  # desugared C type -> (bits, signed)
 class Unsupported(Exception):
     pass
 
-def ctype(n):
-    t = n.get("type", {})
+def qual(t):
     q = t.get("desugaredQualType", t.get("qualType", ""))
-    q = q.replace("const ", "").replace("volatile ", "").strip()
+    return q.replace("const ", "").replace("volatile ", "").replace(" const", "").replace("*const", "*").strip()
+
+def ctype(n):
+    q = qual(n.get("type", {}))
     if q.startswith("enum "):
         return (32, False)
     if q in TYPES:
         return TYPES[q]
-    if q and "*" not in q and "struct" not in q and "[" not in q and "(" not in q:
+    if q and "*" not in q and "struct" not in q and "union" not in q and "[" not in q and "(" not in q:
         return (32, False)          # typedef of an anonymous enum (srtp_err_status_t, srtp_key_event_t, ...)
     raise Unsupported("type " + q)
 
@@ -49,58 +78,257 @@ def wrap(e, ty):
         return f"(if ({e}) =? 0 then 0 else 1)"
     return f"(s{bits} ({e}))" if signed else f"(u{bits} ({e}))"
 
+def kids(n):
+    return [c for c in n.get("inner", []) if isinstance(c, dict) and "kind" in c]
+
+def peel(n):
+    """strip parentheses and value-preserving casts"""
+    while n["kind"] == "ParenExpr" or (n["kind"] in ("ImplicitCastExpr", "CStyleCastExpr")
+                                       and n.get("castKind") in ("LValueToRValue", "NoOp")):
+        n = n["inner"][0]
+    return n
+
+def tuple_of(names):
+    return names[0] if len(names) == 1 else "(" + ", ".join(names) + ")"
+
+def pattern_of(names):
+    return names[0] if len(names) == 1 else "'(" + ", ".join(names) + ")"
+
+
 class Fn:
-    def __init__(self, decl, enums):
-        self.d = decl; self.enums = enums
+    def __init__(self, decl, unit):
+        self.d = decl; self.unit = unit; self.enums = unit.enums
         self.name = decl["name"]
         self.params = [p for p in decl.get("inner", []) if p["kind"] == "ParmVarDecl"]
         self.body = [p for p in decl.get("inner", []) if p["kind"] == "CompoundStmt"][0]
         self.objs = []            # state variables reachable through pointer parameters, in order of first use
+        self.kind = {}            # object name -> "scalar" | "array"
+        self.unions = {}          # path of a union object -> set of its members used
+        self.paths = {}           # Gallina name -> access path
+        self.written = set()      # objects (re)bound by an assignment, memset or callee
+        self.partial = False      # has loops or calls a function that has: takes fuel, returns an option
+        self.loop_depth = 0
+        self.ncall = 0
+        self.pre = []             # pending call bindings of the full expression being translated: (open, close)
+        self.pre_calls = []       # (call node, names the callee writes)
+        self.guard = 0            # > 0 while translating a conditionally evaluated operand
+        self.decls = {}           # id -> declaration of every parameter and local variable
+        self.valparams = []
+        for p in self.params:
+            self.decls[p["id"]] = p
+            if "*" in qual(p["type"]):
+                continue
+            ctype(p)              # by-value struct/union parameters are not supported
+            self.valparams.append(p["name"])
+        self.check_scopes(self.body, [set(p["name"] for p in self.params)])
+        self.localnames = set(d["name"] for d in self.decls.values() if "*" not in qual(d["type"]))
         self.scan(self.body)
+        rt = self.d["type"]["qualType"].split("(")[0].strip()
+        self.void = rt == "void"
+        self.text = self.gallina()
+        self.check_unions()
 
-    # ---- names
-    def lval_name(self, n):
-        """Gallina variable standing for an lvalue"""
+    # ---- declarations: a let-bound variable must not shadow a variable of an enclosing scope
+    def check_scopes(self, n, scopes):
+        k = n.get("kind")
+        if k in ("CompoundStmt", "ForStmt", "WhileStmt", "IfStmt"):
+            scopes = scopes + [set()]
+        if k == "VarDecl":
+            if n.get("storageClass") in ("static", "extern"):
+                raise Unsupported("static variable " + n["name"])
+            if any(n["name"] in s for s in scopes[:-1]):
+                raise Unsupported("declaration shadows " + n["name"])
+            scopes[-1].add(n["name"])
+            self.decls[n["id"]] = n
+        if k in ("DoStmt", "GotoStmt", "SwitchStmt", "LabelStmt"):
+            raise Unsupported("statement " + k)
+        for c in kids(n):
+            self.check_scopes(c, scopes)
+
+    # ---- lvalues.  An object is identified by its access path (root variable, member, ..., "*" for a dereference);
+    #      its Gallina name is the path joined by "_" ("*" written "v"); two paths with one name are refused.
+    def nm(self, path):
+        s = "_".join("v" if c == "*" else c for c in path)
+        if self.paths.setdefault(s, path) != path:
+            raise Unsupported("two objects named " + s)
+        return s
+
+    def member(self, n):
+        base = n["inner"][0]
+        pre = self.ptr_path(base) if n.get("isArrow") else self.obj_path(base)
+        if n.get("referencedMemberDecl") in self.unit.union_fields:
+            self.unions.setdefault(pre, set()).add(n["name"])
+        return pre + (n["name"],)
+
+    def obj_path(self, n):
+        """path of the object an lvalue expression denotes"""
         k = n["kind"]
         if k == "ParenExpr":
-            return self.lval_name(n["inner"][0])
-        if k == "DeclRefExpr":
-            return n["referencedDecl"]["name"]
+            return self.obj_path(n["inner"][0])
         if k == "MemberExpr":
-            base = n["inner"][0]
-            while base["kind"] in ("ImplicitCastExpr", "ParenExpr"):
-                base = base["inner"][0]
-            if base["kind"] == "DeclRefExpr":
-                return base["referencedDecl"]["name"] + "_" + n["name"]
-            if base["kind"] == "MemberExpr":
-                return self.lval_name(base) + "_" + n["name"]
-            if base["kind"] == "UnaryOperator" and base.get("opcode") == "*":
-                return self.lval_name(base) + "_" + n["name"]
-            raise Unsupported("member base " + base["kind"])
+            return self.member(n)
         if k == "UnaryOperator" and n.get("opcode") == "*":
-            inner = n["inner"][0]
-            while inner["kind"] in ("ImplicitCastExpr", "ParenExpr"):
-                inner = inner["inner"][0]
-            if inner["kind"] == "DeclRefExpr":
-                return inner["referencedDecl"]["name"] + "_v"
-            raise Unsupported("deref of " + inner["kind"])
+            return self.ptr_path(n["inner"][0])
+        if k == "DeclRefExpr":
+            rd = n["referencedDecl"]
+            if rd.get("id") not in self.decls or "*" in qual(n["type"]):
+                raise Unsupported("variable " + rd.get("name", "?"))
+            return (rd["name"],)
         raise Unsupported("lvalue " + k)
+
+    def ptr_path(self, n):
+        """path of the object a pointer-valued expression points to"""
+        n = peel(n)
+        k = n["kind"]
+        if k == "DeclRefExpr":
+            rd = n["referencedDecl"]
+            if rd.get("id") not in self.decls or rd["kind"] != "ParmVarDecl" or "*" not in qual(n["type"]):
+                raise Unsupported("pointer variable " + rd.get("name", "?"))
+            return (rd["name"],)
+        if k == "MemberExpr":
+            if "*" not in qual(n["type"]):
+                raise Unsupported("member used as a pointer")
+            return self.member(n)
+        if k == "UnaryOperator" and n.get("opcode") == "&":
+            return self.obj_path(n["inner"][0])
+        raise Unsupported("pointer expression " + k)
+
+    def deref_path(self, p):
+        """path of the scalar object *p: p is &lvalue or a pointer parameter"""
+        q = peel(p)
+        if q["kind"] == "UnaryOperator" and q.get("opcode") == "&":
+            return self.obj_path(q["inner"][0])
+        if q["kind"] != "DeclRefExpr":
+            raise Unsupported("dereference of " + q["kind"])
+        return self.ptr_path(q) + ("*",)
+
+    def place(self, n):
+        """(Gallina variable, index node or None) of an lvalue of integer type"""
+        k = n["kind"]
+        if k == "ParenExpr":
+            return self.place(n["inner"][0])
+        ctype(n)
+        if k in ("DeclRefExpr", "MemberExpr"):
+            return self.nm(self.obj_path(n)), None
+        if k == "UnaryOperator" and n.get("opcode") == "*":
+            return self.nm(self.deref_path(n["inner"][0])), None
+        if k == "ArraySubscriptExpr":
+            base, idx = n["inner"][0], n["inner"][1]
+            while base["kind"] == "ParenExpr":
+                base = base["inner"][0]
+            if base["kind"] == "ImplicitCastExpr" and base.get("castKind") == "ArrayToPointerDecay":
+                arr = base["inner"][0]
+                while arr["kind"] == "ParenExpr":
+                    arr = arr["inner"][0]
+                if arr["kind"] != "MemberExpr":
+                    raise Unsupported("array " + arr["kind"])
+                return self.nm(self.member(arr)), idx
+            b = peel(base)
+            if b["kind"] == "MemberExpr":
+                return self.nm(self.ptr_path(b)), idx
+            raise Unsupported("subscript of " + b["kind"])
+        raise Unsupported("lvalue " + k)
+
+    def register(self, nm, kind):
+        if len(self.paths[nm]) == 1:
+            return                # a local variable or a value parameter
+        if nm in self.localnames:
+            raise Unsupported("object name clashes with a variable: " + nm)
+        if self.kind.setdefault(nm, kind) != kind:
+            raise Unsupported("object used both as scalar and as array: " + nm)
+        if nm not in self.objs:
+            self.objs.append(nm)
+
+    # ---- calls
+    def callee(self, n):
+        f = peel(n["inner"][0])
+        while f["kind"] == "ImplicitCastExpr":
+            f = f["inner"][0]
+        if f["kind"] != "DeclRefExpr" or f["referencedDecl"]["kind"] != "FunctionDecl":
+            raise Unsupported("indirect call")
+        return f["referencedDecl"]["name"]
+
+    def call_map(self, n):
+        """for a call of a translated function: (callee, value arguments, {callee object -> caller variable})"""
+        nm = self.callee(n)
+        g = self.unit.registry.get(nm)
+        if g is None:
+            raise Unsupported("call of " + nm)
+        args = n["inner"][1:]
+        if len(args) != len(g.params):
+            raise Unsupported("argument count of " + nm)
+        vals, m = [], {}
+        for p, a in zip(g.params, args):
+            if "*" not in qual(p["type"]):
+                vals.append(a)
+                continue
+            for o in g.objs:
+                path = g.paths[o]
+                if path[0] != p["name"]:
+                    continue
+                m[o] = self.nm(self.deref_path(a) if path[1:] == ("*",) else self.ptr_path(a) + path[1:])
+            for u, mem in g.unions.items():
+                if u[0] == p["name"]:
+                    self.unions.setdefault(self.ptr_path(a) + u[1:], set()).update(mem)
+        if set(m) != set(g.objs) or len(set(m.values())) != len(m):
+            raise Unsupported("aliased or unmapped objects in call of " + nm)
+        return g, vals, m
+
+    def memset_args(self, n):
+        args = n["inner"][1:]
+        dst = args[0]
+        while dst["kind"] in ("ImplicitCastExpr", "CStyleCastExpr", "ParenExpr") and \
+                (dst["kind"] == "ParenExpr" or dst.get("castKind") in ("BitCast", "NoOp")):
+            dst = dst["inner"][0]
+        q = qual(peel(dst)["type"])
+        if TYPES.get(self.unit.resolve(q.rstrip("* ").strip())) != (32, False) or q.count("*") != 1:
+            raise Unsupported("memset of " + q)
+        if not self.unit.little_endian():
+            raise Unsupported("memset on a big-endian target")
+        return self.nm(self.ptr_path(dst)), args[1], args[2]
 
     def scan(self, n):
         k = n.get("kind")
-        if k in ("MemberExpr",) or (k == "UnaryOperator" and n.get("opcode") == "*"):
+        if k in ("ForStmt", "WhileStmt"):
+            self.partial = True
+        if k == "CallExpr":
             try:
-                nm = self.lval_name(n)
-                if nm not in self.objs:
-                    self.objs.append(nm)
+                if self.callee(n) == "memset":
+                    arr, c, cnt = self.memset_args(n)
+                    self.register(arr, "array")
+                    self.scan(c); self.scan(cnt)
+                    return
+                g, vals, m = self.call_map(n)
+                self.partial = self.partial or g.partial
+                for o in g.objs:
+                    self.register(m[o], g.kind[o])
+                for v in vals:
+                    self.scan(v)
                 return
             except Unsupported:
                 pass
-        for c in n.get("inner", []):
-            if isinstance(c, dict):
-                self.scan(c)
+        if k in ("MemberExpr", "ArraySubscriptExpr") or (k == "UnaryOperator" and n.get("opcode") == "*"):
+            try:
+                nm, idx = self.place(n)
+                self.register(nm, "scalar" if idx is None else "array")
+                if idx is not None:
+                    self.scan(idx)
+                return
+            except Unsupported:
+                pass
+        for c in kids(n):
+            self.scan(c)
+
+    def check_unions(self):
+        for u, mem in self.unions.items():
+            if len(mem) > 1:
+                raise Unsupported(f"union {'_'.join(u)} used through different members: " + ", ".join(sorted(mem)))
 
     # ---- expressions (rvalues), returning Gallina text of an unbounded Z already in the range of its C type
+    def read(self, n):
+        nm, idx = self.place(n)
+        return nm if idx is None else f"({nm} ({self.expr(idx)}))"
+
     def expr(self, n):
         k = n["kind"]
         if k in ("ParenExpr", "ConstantExpr"):
@@ -115,9 +343,9 @@ class Fn:
                 if rd["name"] not in self.enums:
                     raise Unsupported("enum constant " + rd["name"])
                 return str(self.enums[rd["name"]])
-            return rd["name"]
-        if k == "MemberExpr" or (k == "UnaryOperator" and n.get("opcode") == "*"):
-            return self.lval_name(n)
+            return self.read(n)
+        if k in ("MemberExpr", "ArraySubscriptExpr") or (k == "UnaryOperator" and n.get("opcode") == "*"):
+            return self.read(n)
         if k in ("ImplicitCastExpr", "CStyleCastExpr"):
             ck = n.get("castKind")
             inner = n["inner"][0]
@@ -128,15 +356,23 @@ class Fn:
             raise Unsupported("cast " + str(ck))
         if k == "UnaryOperator":
             op = n["opcode"]
+            if op not in ("-", "!", "~", "+"):
+                raise Unsupported("unary " + op)
             e = self.expr(n["inner"][0])
             if op == "-": return wrap(f"- ({e})", ctype(n))
             if op == "!": return f"(if ({e}) =? 0 then 1 else 0)"
             if op == "~": return wrap(f"- ({e}) - 1", ctype(n))
-            if op == "+": return e
-            raise Unsupported("unary " + op)
+            return e
         if k == "BinaryOperator":
             op = n["opcode"]
-            a, b = self.expr(n["inner"][0]), self.expr(n["inner"][1])
+            if op in ("=", ","):
+                raise Unsupported("binary " + op + " inside an expression")
+            a = self.expr(n["inner"][0])
+            if op in ("&&", "||"):
+                self.guard += 1
+            b = self.expr(n["inner"][1])
+            if op in ("&&", "||"):
+                self.guard -= 1
             ty = ctype(n)
             if op in ("+", "-", "*"):
                 return wrap(f"({a}) {op} ({b})", ty)
@@ -155,29 +391,164 @@ class Fn:
             if op == "||": return f"(if ({a}) =? 0 then (if ({b}) =? 0 then 0 else 1) else 1)"
             raise Unsupported("binary " + op)
         if k == "ConditionalOperator":
-            c, a, b = (self.expr(x) for x in n["inner"])
+            c = self.expr(n["inner"][0])
+            self.guard += 1
+            a, b = self.expr(n["inner"][1]), self.expr(n["inner"][2])
+            self.guard -= 1
             return f"(if ({c}) =? 0 then {b} else {a})"
         if k == "UnaryExprOrTypeTraitExpr":
             if n.get("name") != "sizeof":
                 raise Unsupported("trait " + str(n.get("name")))
-            at = n.get("argType", {})
-            q = at.get("desugaredQualType", at.get("qualType", "")).replace("const ", "").strip()
-            if q not in TYPES:
-                raise Unsupported("sizeof " + q)
-            return str(TYPES[q][0] // 8)
+            at = n.get("argType")
+            if not at:
+                raise Unsupported("sizeof of an expression")
+            q = qual(at)
+            if q in TYPES:
+                return str(max(TYPES[q][0] // 8, 1))
+            return str(self.unit.sizeof(at["qualType"]))
         if k == "CallExpr":
-            return self.call(n)
+            return self.call(n, True)
         raise Unsupported("expression " + k)
 
-    def call(self, n):
-        raise Unsupported("call")
+    def call(self, n, want_value):
+        """hoist a call: its binding goes in front of the statement being translated; the text returned is the
+        variable holding the returned value"""
+        if self.guard:
+            raise Unsupported("call in a conditionally evaluated operand")
+        if self.pre:
+            raise Unsupported("two calls in one full expression")
+        if self.callee(n) == "memset":
+            if want_value:
+                raise Unsupported("value of memset")
+            arr, c, cnt = self.memset_args(n)
+            self.pre.append((f"let {arr} := memset_u32 {arr} ({self.expr(c)}) ({self.expr(cnt)}) in\n", ""))
+            self.pre_calls.append((n, {arr}))
+            self.written.add(arr)
+            return None
+        g, vals, m = self.call_map(n)
+        if want_value and g.void:
+            raise Unsupported("value of a void function")
+        args = " ".join(f"({self.expr(v)})" for v in vals)
+        if self.pre:
+            raise Unsupported("two calls in one full expression")
+        outs = [m[o] for o in g.objs]
+        self.ncall += 1
+        tmp = f"call_{self.ncall}"
+        if tmp in self.localnames or tmp in self.objs:
+            raise Unsupported("name clash " + tmp)
+        if g.void:
+            if not outs:
+                return None
+            pat = outs
+        else:
+            pat = [tmp] + ([tuple_of(outs)] if outs else [])
+        app = " ".join(x for x in (g.name + "_gen", "fuel" if g.partial else "", args, " ".join(outs)) if x)
+        if g.partial and self.loop_depth:
+            raise Unsupported("call of a function with loops inside a loop")
+        if g.partial:
+            self.pre.append((f"match {app} with\n| None => None\n| Some {tuple_of(pat)} =>\n", "\nend"))
+        else:
+            self.pre.append((f"let {pattern_of(pat)} := {app} in\n", ""))
+        wr = set(m[o] for o in g.written)
+        self.written |= set(w for w in wr if len(self.paths[w]) > 1)
+        self.pre_calls.append((n, wr))
+        return tmp
+
+    def mentions(self, n, skip, names):
+        if n is skip:
+            return False
+        if n.get("kind") in ("DeclRefExpr", "MemberExpr", "ArraySubscriptExpr") or \
+                (n.get("kind") == "UnaryOperator" and n.get("opcode") == "*"):
+            try:
+                if self.place(n)[0] in names:
+                    return True
+            except Unsupported:
+                pass
+        return any(self.mentions(c, skip, names) for c in kids(n))
+
+    def full(self, nodes, tr):
+        """translate the full expression(s) `nodes` with `tr` (which may hoist one call); returns a function that
+        wraps the text of the statement and its continuation into the call binding"""
+        assert not self.pre
+        out = tr()
+        pre, calls = self.pre, self.pre_calls
+        self.pre, self.pre_calls = [], []
+        for cn, wr in calls:
+            for n in nodes:
+                if self.mentions(n, cn, wr):
+                    raise Unsupported("object written by a call is used in the same full expression")
+        def wrapper(text):
+            for o, c in reversed(pre):
+                text = o + text + c
+            return text
+        return out, wrapper
 
     # ---- statements, continuation style.  `rest` is a thunk producing the text of what follows.
     def result(self, retval):
+        if self.loop_depth:
+            raise Unsupported("return inside a loop")
         outs = ", ".join(self.objs)
         if self.void:
-            return f"({outs})" if len(self.objs) != 1 else outs
-        return f"({retval}, ({outs}))" if len(self.objs) != 1 else f"({retval}, {outs})"
+            r = f"({outs})" if len(self.objs) != 1 else outs
+        elif not self.objs:
+            r = retval
+        else:
+            r = f"({retval}, ({outs}))" if len(self.objs) != 1 else f"({retval}, {outs})"
+        return f"Some ({r})" if self.partial else r
+
+    def store(self, lhs, value):
+        """text of the rebinding `lhs = value`; value is a function of the text of the old contents"""
+        nm, idx = self.place(lhs)
+        if len(self.paths[nm]) > 1:
+            self.written.add(nm)
+        if idx is None:
+            return f"let {nm} := {value(nm)} in\n"
+        i = self.expr(idx)
+        return f"let {nm} := upd {nm} ({i}) ({value(f'({nm} ({i}))')}) in\n"
+
+    def assigned(self, n, out, inner_decls):
+        """variables (re)bound by the statements of a loop, in order of first occurrence"""
+        k = n.get("kind")
+        def add(nm):
+            if nm not in out:
+                out.append(nm)
+        if k == "VarDecl":
+            inner_decls.add(n["name"])
+        if (k == "BinaryOperator" and n["opcode"] == "=") or k == "CompoundAssignOperator" or \
+                (k == "UnaryOperator" and n["opcode"] in ("++", "--")):
+            add(self.place(n["inner"][0])[0])
+        if k == "CallExpr":
+            if self.callee(n) == "memset":
+                add(self.memset_args(n)[0])
+            else:
+                g, vals, m = self.call_map(n)
+                for o in g.objs:
+                    add(m[o])
+        for c in kids(n):
+            self.assigned(c, out, inner_decls)
+
+    def loop(self, cond, body, inc, cont):
+        if cond is None or "kind" not in cond:
+            raise Unsupported("loop without a condition")
+        if self.loop_depth:
+            raise Unsupported("nested loop")
+        state, inner = [], set()
+        for part in (cond, body, inc):
+            if part is not None:
+                self.assigned(part, state, inner)
+        state = [s for s in state if s not in inner]
+        if not state:
+            raise Unsupported("loop that changes nothing")
+        ty = " * ".join("(Z -> Z)" if self.kind.get(s) == "array" else "Z" for s in state)
+        c, w = self.full([cond], lambda: self.expr(cond))
+        self.loop_depth += 1
+        if w("") != "":
+            raise Unsupported("call in a loop condition")
+        b = self.stmts([body] + ([inc] if inc is not None else []), lambda: tuple_of(state))
+        self.loop_depth -= 1
+        pat = pattern_of(state)
+        return (f"match @iter ({ty}) fuel (fun {pat} => negb (({c}) =? 0)) (fun {pat} =>\n{b}) {tuple_of(state)} with\n"
+                f"| None => None\n| Some {tuple_of(state)} =>\n{cont()}\nend")
 
     def stmts(self, lst, rest):
         if not lst:
@@ -186,112 +557,200 @@ class Fn:
         k = n["kind"]
         cont = lambda: self.stmts(tail, rest)
         if k == "CompoundStmt":
-            return self.stmts(n.get("inner", []) + tail, rest)
+            return self.stmts(kids(n) + tail, rest)
         if k == "NullStmt":
             return cont()
         if k == "DeclStmt":
-            out = ""
-            for v in n.get("inner", []):
-                if v["kind"] != "VarDecl":
-                    raise Unsupported("decl " + v["kind"])
-                init = [c for c in v.get("inner", []) if isinstance(c, dict) and "kind" in c and c["kind"] not in ("FullComment",)]
-                e = self.expr(init[0]) if init else "0"
-                out += f"let {v['name']} := {e} in\n"
-            return out + cont()
+            vs = n.get("inner", [])
+            if not vs:
+                return cont()
+            v = vs[0]
+            if v["kind"] != "VarDecl":
+                raise Unsupported("decl " + v["kind"])
+            ctype(v)
+            later = dict(n); later["inner"] = vs[1:]
+            init = [c for c in kids(v) if c["kind"] not in ("FullComment",)]
+            if not init:
+                return f"let {v['name']} := 0 in\n" + self.stmts([later] + tail, rest)
+            e, w = self.full([init[0]], lambda: self.expr(init[0]))
+            return w(f"let {v['name']} := {e} in\n" + self.stmts([later] + tail, rest))
         if k == "ReturnStmt":
-            inner = n.get("inner", [])
-            return self.result(self.expr(inner[0]) if inner else None)
+            inner = kids(n)
+            if not inner:
+                return self.result(None)
+            e, w = self.full([inner[0]], lambda: self.expr(inner[0]))
+            return w(self.result(e))
         if k == "IfStmt":
             parts = n["inner"]
-            c = self.expr(parts[0])
+            if len(parts) > 3 or any("kind" not in p for p in parts):
+                raise Unsupported("if with a declaration")
+            c, w = self.full([parts[0]], lambda: self.expr(parts[0]))
             then = parts[1]
             els = parts[2] if len(parts) > 2 else None
             a = self.stmts([then] + tail, rest)
             b = self.stmts(([els] if els else []) + tail, rest)
-            return f"if negb (({c}) =? 0) then (\n{a})\nelse (\n{b})"
+            return w(f"if negb (({c}) =? 0) then (\n{a})\nelse (\n{b})")
+        if k == "ForStmt":
+            init, condvar, cond, inc, body = n["inner"]
+            if "kind" in condvar:
+                raise Unsupported("for with a condition variable")
+            loop = {"kind": "#loop", "cond": cond, "inc": inc if "kind" in inc else None, "body": body}
+            return self.stmts(([init] if "kind" in init else []) + [loop] + tail, rest)
+        if k == "WhileStmt":
+            if len(n["inner"]) != 2:
+                raise Unsupported("while with a condition variable")
+            return self.loop(n["inner"][0], n["inner"][1], None, cont)
+        if k == "#loop":
+            return self.loop(n["cond"], n["body"], n["inc"], cont)
+        if k == "BinaryOperator" and n["opcode"] == ",":
+            return self.stmts([n["inner"][0], n["inner"][1]] + tail, rest)
         if k == "BinaryOperator" and n["opcode"] == "=":
-            nm = self.lval_name(n["inner"][0])
-            return f"let {nm} := {self.expr(n['inner'][1])} in\n" + cont()
+            lhs, rhs = n["inner"]
+            def tr():
+                r = self.expr(rhs)
+                return self.store(lhs, lambda old: r)
+            t, w = self.full([lhs, rhs], tr)
+            return w(t + cont())
         if k == "CompoundAssignOperator":
-            nm = self.lval_name(n["inner"][0])
+            lhs, rhs = n["inner"]
             op = n["opcode"][:-1]
-            ty = ctype(n["inner"][0])
+            ty = ctype(lhs)
             cty = n.get("computeResultType", {})
-            cq = cty.get("desugaredQualType", cty.get("qualType"))
-            comp = TYPES.get(cq, ty)
-            rhs = self.expr(n["inner"][1])
-            sym = {"+": "+", "-": "-", "*": "*"}.get(op)
+            comp = TYPES.get(qual(cty), ty)
+            sym = {"+": "({a}) + ({b})", "-": "({a}) - ({b})", "*": "({a}) * ({b})",
+                   "&": "Z.land ({a}) ({b})", "|": "Z.lor ({a}) ({b})", "^": "Z.lxor ({a}) ({b})",
+                   "<<": "Z.shiftl ({a}) ({b})", ">>": "Z.shiftr ({a}) ({b})"}.get(op)
             if sym is None:
                 raise Unsupported("compound " + op)
-            return f"let {nm} := {wrap(wrap(f'({wrap(nm, comp)}) {sym} ({rhs})', comp), ty)} in\n" + cont()
+            def tr():
+                r = self.expr(rhs)
+                return self.store(lhs, lambda old: wrap(wrap(sym.format(a=wrap(old, comp), b=r), comp), ty))
+            t, w = self.full([lhs, rhs], tr)
+            return w(t + cont())
         if k == "UnaryOperator" and n["opcode"] in ("++", "--"):
-            nm = self.lval_name(n["inner"][0])
-            ty = ctype(n["inner"][0])
-            return f"let {nm} := {wrap(nm + (' + 1' if n['opcode'] == '++' else ' - 1'), ty)} in\n" + cont()
-        if k in ("ImplicitCastExpr", "CStyleCastExpr", "ParenExpr") :
+            lhs = n["inner"][0]
+            ty = ctype(lhs)
+            d = " + 1" if n["opcode"] == "++" else " - 1"
+            t, w = self.full([lhs], lambda: self.store(lhs, lambda old: wrap(old + d, ty)))
+            return w(t + cont())
+        if k == "CallExpr":
+            t, w = self.full([n], lambda: self.call(n, False))
+            return w(cont())
+        if k in ("ImplicitCastExpr", "CStyleCastExpr", "ParenExpr"):
             return self.stmts([n["inner"][0]] + tail, rest)
         raise Unsupported("statement " + k)
 
     def gallina(self):
-        rt = self.d["type"]["qualType"].split("(")[0].strip()
-        self.void = rt == "void"
-        args = []
-        for p in self.params:
-            q = p["type"].get("desugaredQualType", p["type"]["qualType"])
-            if "*" in q:
-                continue           # pointer parameters are represented by the objects reached through them
-            args.append(p["name"])
-        args += self.objs
+        ptrs = set(p["name"] for p in self.params if "*" in qual(p["type"]))
+        for o in self.objs:
+            if self.paths[o][0] not in ptrs:
+                raise Unsupported("object " + o + " is not reached through a pointer parameter")
         body = self.stmts([self.body], lambda: self.result("0" if not self.void else None))
-        sig = " ".join(f"({a} : Z)" for a in args)
-        return f"Definition {self.name}_gen {sig} :=\n{body}.\n"
+        sig = (["(fuel : nat)"] if self.partial else []) + [f"({a} : Z)" for a in self.valparams] + \
+              [f"({o} : {'Z -> Z' if self.kind[o] == 'array' else 'Z'})" for o in self.objs]
+        return f"Definition {self.name}_gen {' '.join(sig)} :=\n{body}.\n"
 
 
-def load_functions(repo, cbuild, relpath):
-    cmd = ["clang", "-U__SSE2__", "-U__SSSE3__", "-Xclang", "-ast-dump=json", "-fsyntax-only", "-w", "-DHAVE_CONFIG_H",
-           "-I", cbuild, "-I", f"{repo}/include", "-I", f"{repo}/crypto/include", os.path.join(repo, relpath)]
-    r = subprocess.run(cmd, capture_output=True, text=True)
-    if r.returncode != 0:
-        raise SystemExit("clang failed on " + relpath + "\n" + r.stderr[-2000:])
-    tu = json.loads(r.stdout)
-    enums, fns = {}, {}
-    def walk(n):
-        if n.get("kind") == "EnumDecl":
-            val = -1
+class Unit:
+    """one translation unit: clang's AST of a C file of the repository"""
+    registry = {}                 # every function translated so far in this run, by name
+    _le = None
+
+    def __init__(self, repo, cbuild, relpath):
+        self.repo, self.cbuild, self.rel = repo, cbuild, relpath
+        self.sizes = {}
+        self.typedefs = {}
+        self.enums, self.fns, self.union_fields = self.load(os.path.join(repo, relpath))
+
+    def clang(self, path, extra=()):
+        cmd = ["clang", "-U__SSE2__", "-U__SSSE3__", *extra, "-fsyntax-only", "-w", "-DHAVE_CONFIG_H",
+               "-I", self.cbuild, "-I", f"{self.repo}/include", "-I", f"{self.repo}/crypto/include",
+               "-I", os.path.dirname(os.path.join(self.repo, self.rel)), path]
+        r = subprocess.run(cmd, capture_output=True, text=True)
+        if r.returncode != 0:
+            raise SystemExit("clang failed on " + path + "\n" + r.stderr[-2000:])
+        return r.stdout
+
+    def load(self, path):
+        tu = json.loads(self.clang(path, ["-Xclang", "-ast-dump=json"]))
+        enums, fns, union_fields = {}, {}, set()
+        def walk(n):
+            if n.get("kind") == "EnumDecl":
+                val = -1
+                for c in n.get("inner", []):
+                    if c.get("kind") == "EnumConstantDecl":
+                        init = [x for x in c.get("inner", []) if isinstance(x, dict)]
+                        if init:
+                            v = find_value(init[0])
+                            val = v if v is not None else val + 1
+                        else:
+                            val += 1
+                        enums[c["name"]] = val
+            if n.get("kind") == "TypedefDecl":
+                self.typedefs[n["name"]] = qual(n["type"])
+            if n.get("kind") == "RecordDecl" and n.get("tagUsed") == "union":
+                for c in n.get("inner", []):
+                    if c.get("kind") == "FieldDecl":
+                        union_fields.add(c["id"])
+            if n.get("kind") == "FunctionDecl" and any(c.get("kind") == "CompoundStmt" for c in n.get("inner", [])):
+                fns[n["name"]] = n
             for c in n.get("inner", []):
-                if c.get("kind") == "EnumConstantDecl":
-                    init = [x for x in c.get("inner", []) if isinstance(x, dict)]
-                    if init:
-                        v = find_value(init[0])
-                        val = v if v is not None else val + 1
-                    else:
-                        val += 1
-                    enums[c["name"]] = val
-        if n.get("kind") == "FunctionDecl" and any(c.get("kind") == "CompoundStmt" for c in n.get("inner", [])):
-            fns[n["name"]] = n
-        for c in n.get("inner", []):
-            if isinstance(c, dict):
-                walk(c)
-    def find_value(n):
-        if "value" in n and n.get("kind") in ("ConstantExpr", "IntegerLiteral"):
+                if isinstance(c, dict):
+                    walk(c)
+        def find_value(n):
+            if "value" in n and n.get("kind") in ("ConstantExpr", "IntegerLiteral"):
+                try:
+                    return int(n["value"])
+                except ValueError:
+                    return None
+            for c in n.get("inner", []):
+                v = find_value(c)
+                if v is not None:
+                    return v
+            return None
+        walk(tu)
+        return enums, fns, union_fields
+
+    def resolve(self, q):
+        seen = set()
+        while q in self.typedefs and q not in seen:
+            seen.add(q)
+            q = self.typedefs[q]
+        return q
+
+    def sizeof(self, qualtype):
+        """sizeof of a struct/union/typedef'd type: asked from clang (an enum constant appended to the unit)"""
+        if qualtype not in self.sizes:
+            with tempfile.NamedTemporaryFile("w", suffix=".c", delete=False) as f:
+                f.write(f'#include "{os.path.join(self.repo, self.rel)}"\nenum {{ gen_kernels_sizeof = sizeof({qualtype}) }};\n')
             try:
-                return int(n["value"])
-            except ValueError:
-                return None
-        for c in n.get("inner", []):
-            v = find_value(c)
-            if v is not None:
-                return v
-        return None
-    walk(tu)
-    return enums, fns
+                enums = self.load(f.name)[0]
+            finally:
+                os.unlink(f.name)
+            if "gen_kernels_sizeof" not in enums:
+                raise Unsupported("sizeof " + qualtype)
+            self.sizes[qualtype] = enums["gen_kernels_sizeof"]
+        return self.sizes[qualtype]
+
+    def little_endian(self):
+        if Unit._le is None:
+            r = subprocess.run(["clang", "-dM", "-E", "-x", "c", "/dev/null"], capture_output=True, text=True)
+            Unit._le = "#define __BYTE_ORDER__ __ORDER_LITTLE_ENDIAN__" in r.stdout
+        return Unit._le
 
 
+# in dependency order: a callee must be translated before its callers
 WANTED = [
     ("crypto/kernel/key.c", ["srtp_key_limit_update", "srtp_key_limit_set"]),
     ("crypto/replay/rdbx.c", ["srtp_index_guess"]),
     ("crypto/replay/rdb.c", ["srtp_rdb_increment"]),
     ("srtp/srtp.c", ["srtp_estimate_index"]),
+    ("crypto/replay/rdbx.c", ["srtp_index_advance", "srtp_rdbx_estimate_index", "srtp_rdbx_check",
+                              "srtp_rdbx_get_roc", "srtp_rdbx_get_packet_index"]),
+    ("crypto/replay/rdb.c", ["srtp_rdb_check"]),
+    ("crypto/math/datatypes.c", ["v128_left_shift", "bitvector_set_to_zero", "bitvector_left_shift"]),
+    ("crypto/replay/rdb.c", ["srtp_rdb_add_index"]),
+    ("crypto/replay/rdbx.c", ["srtp_rdbx_add_index", "srtp_rdbx_set_roc_seq"]),
 ]
 
 HEADER = """(* KernelGen.v — GENERATED by tools/gen_kernels.py from the clang AST of /repo's working tree.  Do not edit.
@@ -307,20 +766,38 @@ Definition s64 (x : Z) := (x + 9223372036854775808) mod 18446744073709551616 - 9
 Definition s16 (x : Z) := (x + 32768) mod 65536 - 32768.
 Definition s8 (x : Z) := (x + 128) mod 256 - 128.
 
+(* an array object is a function from indices to elements; a[i] = v *)
+Definition upd (a : Z -> Z) (i v : Z) : Z -> Z := fun j => if j =? i then v else a j.
+(* memset(a, c, n) on an array of 4-byte words, little-endian: the first n bytes become (unsigned char)c
+   (n / 4 whole words, then the low n mod 4 bytes of the next word) *)
+Definition memset_u32 (a : Z -> Z) (c n : Z) : Z -> Z :=
+  let b := c mod 256 in
+  let w := b + 256 * b + 65536 * b + 16777216 * b in
+  let k := 2 ^ (8 * (n mod 4)) in
+  fun j => if (0 <=? j) && (j <? n / 4) then w else if j =? n / 4 then w mod k + (a j / k) * k else a j.
+(* while (cond s) s = body s;   None = out of fuel *)
+Fixpoint iter {S : Type} (fuel : nat) (cond : S -> bool) (body : S -> S) (s : S) : option S :=
+  if cond s then match fuel with O => None | S f => iter f cond body (body s) end else Some s.
+
 """
 
 def main():
     repo, cbuild, out = sys.argv[1:4]
     txt = HEADER
     failed = []
+    Unit.registry = {}
+    units = {}
     for rel, names in WANTED:
-        enums, fns = load_functions(repo, cbuild, rel)
+        if rel not in units:
+            units[rel] = Unit(repo, cbuild, rel)
+        unit = units[rel]
         for nm in names:
-            if nm not in fns:
+            if nm not in unit.fns:
                 failed.append(f"{nm}: not found in {rel}"); continue
             try:
-                f = Fn(fns[nm], enums)
-                txt += f"(* {rel}: {nm} *)\n" + f.gallina() + "\n"
+                f = Fn(unit.fns[nm], unit)
+                txt += f"(* {rel}: {nm} *)\n" + f.text + "\n"
+                Unit.registry[nm] = f
             except Unsupported as e:
                 failed.append(f"{nm}: unsupported {e}")
     with open(out, "w") as f:
